@@ -151,6 +151,8 @@ def run_cell(cell, unit_c_path, workdir, log):
             cmd += ["--replace-call-with-contract", r]
         if cell.loop_contracts:
             cmd += ["--apply-loop-contracts"]
+        if not cell.malloc_may_fail:
+            cmd += ["--no-malloc-may-fail"]   # dfcc links the C library model at this stage
         cmd += [cur, nxt]
         rc, out, err, dt = run(cmd, 600)
         res["cmds"].append(" ".join(cmd))
